@@ -138,7 +138,7 @@ func init() {
 
 func runC03(b *Batch) {
 	if b.Only < 0 {
-		for i := 0; i < b.Pick(2, 24); i++ {
+		for i := 0; i < b.Pick(2, 96); i++ {
 			c03DefaultBackend(b, 900000+i)
 		}
 	} else if b.Only >= 900000 {
@@ -146,7 +146,7 @@ func runC03(b *Batch) {
 		return
 	}
 	cells := c03Cells()
-	reps := b.Pick(4, 12)
+	reps := b.Pick(4, 48)
 	if b.Index == 0 {
 		b.R.Count("cells.skipped_inconsistent", int64(256-len(cells)))
 	}
